@@ -289,6 +289,16 @@ fn canon(cbs: &[Cb], key: &str) -> BTreeMap<String, Vec<String>> {
     m
 }
 
+/// per key (sorted) the sequence of open/close marks: the order between different keys inside one cleanup / drop
+/// depends on HashMap iteration and is not part of the property
+fn canon_log(evs: &[(bool, String)]) -> Vec<String> {
+    let mut m: BTreeMap<&str, String> = BTreeMap::new();
+    for (op, k) in evs {
+        m.entry(k.as_str()).or_default().push(if *op { '+' } else { '-' });
+    }
+    m.into_iter().map(|(k, v)| format!("{}={}", k, v)).collect()
+}
+
 #[derive(Default)]
 struct Spec {
     filtering: bool,
@@ -332,6 +342,8 @@ pub struct TsiEngine {
     all_cb: Vec<Cb>,
     had_tick: bool,
     opn: u64,
+    /// secondary listeners: id -> (log, index into all_ev at registration, index at removal)
+    sec: HashMap<u64, (EvLog, usize, Option<usize>)>,
     pub completes: usize,
     pub sessions_with_complete: usize,
 }
@@ -352,6 +364,7 @@ impl TsiEngine {
             all_cb: Vec::new(),
             had_tick: false,
             opn: 0,
+            sec: HashMap::new(),
             completes: 0,
             sessions_with_complete: 0,
         }
@@ -751,6 +764,7 @@ impl Engine for TsiEngine {
         self.all_cb.clear();
         self.had_tick = false;
         self.opn = 0;
+        self.sec.clear();
         self.completes = 0;
         self.sessions_with_complete = 0;
     }
@@ -907,6 +921,73 @@ impl Engine for TsiEngine {
                 std::thread::sleep(Duration::from_millis(TICK_MS));
                 self.stale = self.pending.clone();
                 "ok".into()
+            }
+            ("ladd", 2) => {
+                let n = self.all_ev.len();
+                let l = match self.live.as_mut() {
+                    Some(l) => l,
+                    None => return "bad-op".into(),
+                };
+                let log: EvLog = Rc::new(RefCell::new(Vec::new()));
+                let id = l.mr.add_listener(Listener { log: log.clone() });
+                self.sec.insert(id, (log, n, None));
+                format!("ok {}", id)
+            }
+            ("lrm", 3) => {
+                let id = match t[2].parse::<u64>() {
+                    Ok(i) => i,
+                    Err(_) => return "bad-op".into(),
+                };
+                let n = self.all_ev.len();
+                let l = match self.live.as_mut() {
+                    Some(l) => l,
+                    None => return "bad-op".into(),
+                };
+                l.mr.remove_listener(id);
+                if let Some(e) = self.sec.get_mut(&id) {
+                    if e.2.is_none() {
+                        e.2 = Some(n);
+                    }
+                }
+                "ok".into()
+            }
+            ("llog", 3) => {
+                let id = match t[2].parse::<u64>() {
+                    Ok(i) => i,
+                    Err(_) => return "bad-op".into(),
+                };
+                if id == 0 {
+                    // the recording listener registered by `new`
+                    if self.hist.is_empty() {
+                        return "bad-op".into();
+                    }
+                    let c = canon_log(&self.all_ev);
+                    return if c.is_empty() { "ok".into() } else { format!("ok {}", c.join(" ")) };
+                }
+                let (log, from, to) = match self.sec.get(&id) {
+                    Some(e) => (e.0.borrow().clone(), e.1, e.2.unwrap_or(self.all_ev.len())),
+                    None => return "bad-op".into(),
+                };
+                let got = canon_log(&log);
+                let want = canon_log(&self.all_ev[from..to]);
+                if got != want {
+                    o.fail(
+                        "listener-segment",
+                        &format!(
+                            "listener {} (registered after {} events, {}) was told {:?} but the listener registered throughout saw {:?} in that period",
+                            id,
+                            from,
+                            if self.sec[&id].2.is_some() { "removed later" } else { "never removed" },
+                            got,
+                            want
+                        ),
+                    );
+                }
+                if got.is_empty() {
+                    "ok".into()
+                } else {
+                    format!("ok {}", got.join(" "))
+                }
             }
             ("cleanup", 2) => self.cleanup(o),
             ("drop", 2) => self.do_drop(o),
@@ -1108,6 +1189,7 @@ fn session_case(ctx: &mut Ctx, eng: &mut dyn Engine, rng: &mut Rng, id: &str, or
     let mut steps = 0usize;
     let mut closes = 0;
     let mut ticks = 0;
+    let mut listeners: Vec<(u64, bool)> = Vec::new();
     let max_ticks = if with_ticks { rng.range(1, 2) } else { 0 };
     while remaining > 0 && steps < 4000 {
         steps += 1;
@@ -1122,6 +1204,24 @@ fn session_case(ctx: &mut Ctx, eng: &mut dyn Engine, rng: &mut Rng, id: &str, or
         }
         if r < 20 {
             ctx.step(eng, "tsi cleanup");
+            continue;
+        }
+        if r >= 990 && listeners.len() < 4 {
+            let obs = ctx.step(eng, "tsi ladd");
+            if let Some(id) = obs.strip_prefix("ok ").and_then(|x| x.parse::<u64>().ok()) {
+                listeners.push((id, false));
+            }
+            continue;
+        }
+        if r >= 984 && r < 990 {
+            if let Some(e) = listeners.iter_mut().find(|e| !e.1) {
+                e.1 = true;
+                ctx.step(eng, &format!("tsi lrm {}", e.0));
+                // removing twice / an unknown id is a no-op
+                if rng.chance(1, 4) {
+                    ctx.step(eng, &format!("tsi lrm {}", e.0 + 17));
+                }
+            }
             continue;
         }
         if r < 26 {
@@ -1194,6 +1294,13 @@ fn session_case(ctx: &mut Ctx, eng: &mut dyn Engine, rng: &mut Rng, id: &str, or
         ctx.step(eng, "tsi cleanup");
     }
     ctx.step(eng, "tsi drop");
+    ctx.step(eng, "tsi llog 0");
+    for (id, _) in listeners.iter() {
+        ctx.step(eng, &format!("tsi llog {}", id));
+    }
+    if !listeners.is_empty() {
+        ctx.count("session cases with listeners added/removed mid-way");
+    }
     let t_ops = t_case.elapsed();
     ctx.end_case(eng);
     if std::env::var("TSI_TIMING").is_ok() {
@@ -1213,7 +1320,7 @@ fn session_case(ctx: &mut Ctx, eng: &mut dyn Engine, rng: &mut Rng, id: &str, or
 pub fn run(ctx: &mut Ctx, eng: &mut dyn Engine) {
     let thorough = ctx.tier_thorough;
     let (d_full, d_one) = if thorough { (5usize, 6usize) } else { (4usize, 5usize) };
-    let (n_iso, n_lis, n_exp, n_race, race_n) = if thorough { (6000, 6000, 300, 12, 20000) } else { (600, 600, 40, 3, 4000) };
+    let (n_iso, n_lis, n_exp, n_race, race_n) = if thorough { (6000, 6000, 300, 10, 8000) } else { (600, 600, 40, 3, 4000) };
     ctx.rule = format!(
         "(a) EXHAUSTIVE add/remove/bypass sequences: alphabet 2 endpoints x (source 10.0.0.7 | no source) x TSI 1,2 (24 ops) to depth {}, \
          and alphabet 1 endpoint x source/no-source x TSI 1,2 (12 ops) to depth {}; after each sequence all 8 (endpoint, source?, tsi) data packets \
